@@ -56,6 +56,28 @@ func genWKB(t *rapid.T) ([]byte, string, bool) {
 		return rapid.SliceOfN(rapid.Byte(), 0, 64).Draw(t, "bytes"), src, false
 	}
 	g, orders := genValid(t)
+	if rapid.IntRange(0, 59).Draw(t, "longarr") == 0 {
+		// a point array longer than the decoder's 1024-point read block, really present in the input (16-50 KiB),
+		// alone or nested: the count mutations below then inflate a count whose first blocks can be read
+		n := rapid.SampledFrom([]int{1024, 1025, 1500, 2048, 2049, 3000}).Draw(t, "longn")
+		pts := make([]vkit.P2, n)
+		for i := range pts {
+			pts[i] = vkit.MkP(float64(i), float64(-i))
+		}
+		switch rapid.IntRange(0, 3).Draw(t, "longwrap") {
+		case 0:
+			g = vkit.GJ{T: "LineString", Pts: pts}
+		case 1:
+			g = vkit.GJ{T: "Polygon", Rings: [][]vkit.P2{pts[:4], pts}}
+		case 2:
+			g = vkit.GJ{T: "MultiPolygon", Polys: [][][]vkit.P2{{pts[:3]}, {pts}}}
+		default:
+			g = vkit.GJ{T: "GeometryCollection", Geoms: []vkit.GJ{{T: "Point", Pts: pts[:1]}, {T: "MultiLineString", Rings: [][]vkit.P2{pts}}}}
+		}
+		if src == "count" {
+			src = "count_long"
+		}
+	}
 	lay := vkit.RefWKBLayout(g, orders)
 	data := append([]byte(nil), lay.Data...)
 	mut := func(kind string) {
@@ -67,9 +89,17 @@ func genWKB(t *rapid.T) ([]byte, string, bool) {
 			for i := 0; i < n && len(data) > 0; i++ {
 				data[rapid.IntRange(0, len(data)-1).Draw(t, "pos")] ^= 1 << uint(rapid.IntRange(0, 7).Draw(t, "bit"))
 			}
-		case "count":
+		case "count", "count_long":
 			if len(lay.Counts) > 0 {
 				i := rapid.IntRange(0, len(lay.Counts)-1).Draw(t, "ci")
+				if kind == "count_long" {
+					// aim at the count of the longest array
+					for j := range lay.Counts {
+						if j+1 < len(lay.Counts) && lay.Counts[j+1]-lay.Counts[j] > 16000 || j+1 == len(lay.Counts) && len(data)-lay.Counts[j] > 16000 {
+							i = j
+						}
+					}
+				}
 				v := rapid.OneOf(rapid.SampledFrom(hostileCounts), rapid.Uint32Range(1<<16, 1<<24), rapid.Uint32()).Draw(t, "cv")
 				putU32(data, lay.Counts[i], lay.CountBE[i], v)
 			} else { // a point has no count: make it a line string header with a hostile count
@@ -485,7 +515,14 @@ func run(c Case) (v vkit.Verdict) {
 		}
 	}
 	if c.AllPrefixes {
+		step := 1
+		if len(c.Data) > 4096 {
+			step = len(c.Data) / 2048 // long encodings: ~2000 evenly spaced prefixes plus the neighbourhood of every 16 KiB block
+		}
 		for n := 0; n < len(c.Data); n++ {
+			if step > 1 && n%step != 0 && (n%16384 > 40 && n%16384 < 16384-40) {
+				continue
+			}
 			okp, msg := checkOne(c.Decoder, c.Data[:n], 0)
 			if msg != "" {
 				return v.Fail("prefix of length %d of a valid %d-byte encoding: %s", n, len(c.Data), msg)
@@ -505,7 +542,7 @@ func spec() vkit.Spec[Case] {
 		ID: "C07",
 		Rule: "rapid: inputs <=64 KiB for wkb.Decode, hex.Decode, geojson.Decode and geojson.FromGeoJSON. WKB/hex: valid encodings of random nested geometries (mixed byte orders) " +
 			"mutated by truncation (one drawn offset, or all prefixes exhaustively), 1-4 bit flips, count fields overwritten with hostile values (0,1,2,2^16..2^24 mostly, 2^28, 2^31, " +
-			"2^32-1, byte-swapped small counts), unknown/extended type codes, bad byte-order flags, 10-7000 levels of nested collections, trailing garbage, 2-4 combined mutations, and " +
+			"2^32-1, byte-swapped small counts; 1.7% of the base encodings carry a really present array of 1024-3000 points so that a count can be inflated behind full read blocks), unknown/extended type codes, bad byte-order flags, 10-7000 levels of nested collections, trailing garbage, 2-4 combined mutations, and " +
 			"random bytes; hex additionally upper case, odd length, non-hex characters. GeoJSON: documents from a grammar (well-shaped, noisy arity/scalars/depth, wrong depth, " +
 			"missing/duplicate/extra keys, non-string type, 50-30000 levels of arrays, huge/tiny numbers, garbage bytes) and mutated valid encodings; Geometry values with " +
 			"[]interface{}, []float64, int and nil-pointer shapes. Oracle per call: no panic; exactly one of geometry/error; geometry well-formed; heap bytes allocated during " +
